@@ -914,7 +914,7 @@ Qed.
 Theorem step_inv : forall s o, Inv s -> Inv (fst (step true s o)) /\ Ext s (fst (step true s o)).
 Proof.
   intros s o HI. assert (R : Inv s /\ Ext s s) by (split; [exact HI | apply ext_refl]).
-  destruct o as [i p d|i p d h rem|i p d h order|i p d h stage del order|i p d stage del order|i h|n|ids| |order k fail| ];
+  destruct o as [i p d|i p d h rem|i p d h order|i p d h stage del order|i p d stage del order|i h|n|ids| |order k fail|order k fail sfail| ];
     cbn [step].
   - unfold do_put. destruct (tomb i s); [exact R|].
     destruct (create_storage true i p d s) as [s' o] eqn:C. cbn [fst]. eapply create_any_step; eauto.
@@ -958,6 +958,7 @@ Proof.
     rewrite Hs in I1, E1. destruct (st_add_step (fold_left sunion (slog s) []) (with_sset (fold_left sunion (slog s) []) s) I1) as [I2 E2].
     split; [exact I2 | eapply ext_trans; [exact E1 | exact E2]].
   - cbn [fst]. now apply worker_step.
+  - cbn [fst]. unfold worker_s. now apply worker_step.
   - cbn [fst]. destruct (restart_step s HI) as [I1 [E1 _]]. auto.
 Qed.
 
